@@ -11,6 +11,7 @@ import (
 	"github.com/internetarchive/Zeno/internal/pkg/log"
 	"github.com/internetarchive/Zeno/internal/pkg/reactor"
 	"github.com/internetarchive/Zeno/internal/pkg/source/lq/sqlc_model"
+	"github.com/internetarchive/Zeno/internal/pkg/verifhook"
 	"github.com/internetarchive/Zeno/pkg/models"
 )
 
@@ -80,7 +81,9 @@ func consumerFetcher(ctx context.Context, wg *sync.WaitGroup, urlBuffer chan<- *
 		}
 
 		// Fetch URLs from LQ
+		verifhook.At("lq.fetch.get")
 		URLs, err := getURLs(batchSize)
+		verifhook.At("lq.fetch.got", URLs, err)
 		if err != nil || len(URLs) == 0 {
 			if err != nil {
 				logger.Error("error fetching URLs from LQ", "err", err.Error(), "func", "lq.consumerFetcher")
@@ -134,6 +137,7 @@ func consumerSender(ctx context.Context, wg *sync.WaitGroup, urlBuffer <-chan *s
 			logger.Debug("closed")
 			return
 		case URL := <-urlBuffer:
+			verifhook.At("lq.sender.recv", URL)
 			// Debug check to troubleshoot a problem where the same seed is received twice by the reactor
 			if previousURLReceived != nil && previousURLReceived.ID == URL.ID {
 				spew.Dump(previousURLReceived)
@@ -159,6 +163,7 @@ func consumerSender(ctx context.Context, wg *sync.WaitGroup, urlBuffer <-chan *s
 
 			if discard {
 				logger.Debug("parsing failed, sending the item to finisher", "url", URL.Value)
+				verifhook.At("lq.sender.discard", newItem)
 				globalLQ.finishCh <- newItem
 				break
 			}
@@ -167,6 +172,7 @@ func consumerSender(ctx context.Context, wg *sync.WaitGroup, urlBuffer <-chan *s
 
 			// Send the new Item to the reactor
 			err = reactor.ReceiveInsert(newItem)
+			verifhook.Obs("lq.sender.inserted", newItem, err)
 			if err != nil {
 				if err == reactor.ErrReactorFrozen {
 					select {
